@@ -138,6 +138,33 @@ def check(pm: ProgramModel, ctx: Ctx) -> None:
               "the ancestor loop has no branch: every iteration applies the same transfer, so the "
               "chains decide it", bad="the ancestor loop branches on the feature: chains 0..4 do not "
               "decide it")
+    # history: a second model with the same feature names but another shape, analysed in the same
+    # process, must be answered as in a fresh process (Feature hashes by name: name-keyed caches lie)
+    from ..absint import reset_global_state
+    from ..model import same_names_pair
+
+    def canon(v: Any) -> Any:
+        if isinstance(v, AObj):
+            return (v._cls, v._f.get("name"), id(v))
+        if isinstance(v, (list, tuple)):
+            return [canon(x) for x in v]
+        if isinstance(v, dict):
+            return sorted((repr(canon(k)), repr(canon(x))) for k, x in v.items())
+        return v
+    helpers = {"count_leaf_features": cl, "get_leaf_features": gl, "max_depth_tree": md,
+               "average_branching_factor": ab, "variation_points": vp}
+    for hname, fnx in list(helpers.items()) + [("get_feature_ancestors", ga)]:
+        first, second = same_names_pair(mb)
+        arg1 = first if hname != "get_feature_ancestors" else _leaves(first._f["root"])[0]
+        arg2 = second if hname != "get_feature_ancestors" else _leaves(second._f["root"])[-1]
+        ev(fnx, [arg1])
+        after = canon(ev(fnx, [arg2]))
+        reset_global_state()
+        fresh = canon(ev(fnx, [arg2]))
+        ctx.check(after == fresh, "C16-HISTORY", f"history:{hname}", loc(fnx.unit.path, fnx.node),
+                  f"{hname} on a second model (same names, other shape) answers as in a fresh process",
+                  bad=f"{hname}: the answer for a model depends on a model with the same feature names analysed "
+                      f"before it in the same process: {str(after)[:100]} vs fresh {str(fresh)[:100]}")
     # leaf predicate sites ---------------------------------------------------------------------------
     leaf_sites(pm, ctx, mb)
     # variation points: step check --------------------------------------------------------------------
